@@ -284,6 +284,40 @@ fn check_family(rep: &mut Report, k: usize, rc: bool, fam: &Fam, dir: &str) -> V
             Ok(())
         })());
     }
+    // the same bytes under names that do not end in .skf (as written by `weed -o cleaned`, or renamed by the user):
+    // every reading subcommand gives what it gives for x.skf
+    for alias in ["cleaned", "x.skf.bak"] {
+        let _ = std::fs::copy(format!("{dir}/x.skf"), format!("{dir}/{alias}"));
+        let nk = cli::run(&["nk", "--full-info", alias], dir, None);
+        step(rep, &format!("nk on a file named {alias}"), (|| {
+            let n = cli::parse_nk(&nk.stdout).map_err(|_| format!("exit {} {}", nk.code, tail(&nk)))?;
+            if n.names != names || n.kmers != t.rows.len() {
+                return Err("differs from the table".into());
+            }
+            Ok(())
+        })());
+        for (what, a, b) in [("align", vec!["align", "x.skf", "--min-freq", "0", "--filter", "no-filter"], vec!["align", alias, "--min-freq", "0", "--filter", "no-filter"]), ("map", vec!["map", "ref.fa", "x.skf"], vec!["map", "ref.fa", alias]), ("distance", vec!["distance", "x.skf"], vec!["distance", alias])] {
+            let (o1, o2) = (cli::run(&a, dir, None), cli::run(&b, dir, None));
+            step(rep, &format!("{what} on a file named {alias}"), (|| {
+                if o1.code != o2.code {
+                    return Err(format!("exit {} for x.skf, exit {} for the same bytes named {alias}: {}", o1.code, o2.code, tail(&o2)));
+                }
+                if what == "align" {
+                    let (n1, s1) = real::parse_fasta(&o1.stdout);
+                    let (n2, s2) = real::parse_fasta(&o2.stdout);
+                    let (mut c1, mut c2) = (real::columns_of(&s1).unwrap_or_default(), real::columns_of(&s2).unwrap_or_default());
+                    c1.sort();
+                    c2.sort();
+                    if n1 != n2 || c1 != c2 {
+                        return Err("alignment differs".into());
+                    }
+                } else if o1.stdout != o2.stdout {
+                    return Err("output differs".into());
+                }
+                Ok(())
+            })());
+        }
+    }
     // the same three reports written with -o: the file holds what the command prints otherwise, nothing on stdout
     for (what, base) in [("align", vec!["align", "x.skf", "--min-freq", "0", "--filter", "no-filter"]), ("map", vec!["map", "ref.fa", "x.skf"]), ("map vcf", vec!["map", "ref.fa", "x.skf", "-f", "vcf"]), ("distance", vec!["distance", "x.skf"])] {
         let plain = cli::run(&base, dir, None);
